@@ -351,7 +351,16 @@ def check(tier, seed):
     for ev in sscs:
         b = stream_monitor(ev, sres.get(ev[0].split()[1], []))
         if b:
-            smon.append((ev, b))
+            # this harness runs in real time (fixed settling pauses): a finding must reproduce before it is reported
+            again = 0
+            for _ in range(3):
+                e2, r2 = run_streams([ev], "retry")
+                if not e2 and stream_monitor(ev, r2.get(ev[0].split()[1], [])):
+                    again += 1
+            if again:
+                smon.append((ev, b))
+            else:
+                ck.notes.append("whole-stream scenario %s flagged once and not reproduced in 3 re-runs (timing): %s" % (ev[0], b[0][:200]))
     ck.obligation("whole streams (real sender/receiver pairs re-established with overlap): registries = live pairs at quiescence, watermarks and acknowledgements flow through the newest pair, "
                   "all handlers return once every stream ended", not smon, "; ".join(b[0] for _, b in smon[:3]))
     ck.cov.update({"evaluations": nsched + len(sscs), "distinct_nontrivial": len(scs) + len(sscs), "traces_validated_against_impl": nsched,
